@@ -6,6 +6,7 @@ for the termination clauses of C01/C17.  A probe whose target function no longer
 `missing` instead of raising, so a refactoring degrades evidence but never raises an alarm.
 """
 import collections
+import datetime
 import os
 import random
 import sys
@@ -271,3 +272,71 @@ def ranges(nums):
     if start is not None:
         out.append('%d' % start if start == prev else '%d-%d' % (start, prev))
     return out
+
+
+TOOL_AMBIENT = 2
+
+
+class AmbientReads(object):
+    """Which reads of the clock the code under test makes (CALL events, global while started).
+
+    An evaluation can only depend on the time of day if something reads it: every call of datetime.now/utcnow/today, date.today,
+    time.time/time_ns, and of time.localtime/gmtime/ctime/strftime WITHOUT a time argument, made from a frame of the library under
+    test or of one of its dependencies (dateutil, ply) is recorded with the calling location.  Calls made by the harness itself
+    (frames under /verif) are not."""
+
+    CLASSMETHODS = ('now', 'utcnow', 'today')
+    PLAIN = ('time', 'time_ns')
+    DEFAULTING = ('localtime', 'gmtime', 'ctime', 'strftime', 'asctime')
+
+    def __init__(self):
+        self.hits = []
+        self.active = False
+        self.skip = os.path.join(env.VERIF, 'hxmon') + os.sep
+
+    def _call(self, code, offset, func, arg0):
+        try:
+            self._see(code, func, arg0)
+        except Exception:           # a spy never changes what it watches (hostile callables have hostile attributes)
+            pass
+
+    def _see(self, code, func, arg0):
+        name = getattr(func, '__name__', None)
+        if name is None:
+            return
+        what = None
+        if name in self.CLASSMETHODS:
+            owner = getattr(func, '__self__', None)
+            if isinstance(owner, type) and issubclass(owner, datetime.date):
+                what = owner.__name__ + '.' + name
+        elif name in self.PLAIN and getattr(func, '__module__', None) == 'time':
+            what = 'time.' + name
+        elif name in self.DEFAULTING and getattr(func, '__module__', None) == 'time':
+            if arg0 is mon.MISSING or (name == 'strftime'):
+                what = 'time.%s()' % name
+        if what is None:
+            return
+        fn = code.co_filename
+        if fn.startswith(self.skip) or fn.startswith('<'):
+            return
+        self.hits.append((what, os.path.basename(os.path.dirname(fn)) + '/' + os.path.basename(fn), code.co_name))
+
+    def start(self):
+        try:
+            _claim(TOOL_AMBIENT, 'hxmon-ambient-reads')
+            mon.register_callback(TOOL_AMBIENT, E.CALL, self._call)
+            mon.set_events(TOOL_AMBIENT, E.CALL)
+            self.active = True
+        except Exception:
+            self.active = False
+        return self
+
+    def reset(self):
+        del self.hits[:]
+
+    def stop(self):
+        if self.active:
+            mon.set_events(TOOL_AMBIENT, 0)
+            mon.register_callback(TOOL_AMBIENT, E.CALL, None)
+            mon.free_tool_id(TOOL_AMBIENT)
+            self.active = False
